@@ -591,6 +591,10 @@ pub fn run_stream(args: &Args) -> (u64, u64) {
     if exp == "wrath" {
         rc4_coincidence(&mut c, &mut rng);
     }
+    {
+        let k = rnd40(&mut rng);
+        clone_from_same_position(&mut c, &mut rng, &[exp], k, if thorough { 8 } else { 4 });
+    }
     // session keys whose DERIVED cipher key (HMAC-SHA1 under the protocol's direction constants) starts with a notable
     // byte pair - 03 FF (the classic weak RC4 key form), 00 00, FF FF, 00 01: found by search (input selection only;
     // the specification derives the key itself and judges every byte)
@@ -1469,6 +1473,30 @@ fn rc4_coincidence(c: &mut C, rng: &mut StdRng) {
     }
 }
 
+
+/// clone_from from an object that is exactly one (or two) key periods ahead: same key, same position, ANOTHER carried byte
+fn clone_from_same_position(c: &mut C, rng: &mut StdRng, exps: &[&'static str], key: [u8; 40], rounds: usize) {
+    c.reset("clone-from-same-position");
+    for (i, exp) in exps.iter().cycle().take(rounds).enumerate() {
+        let Some((mut a, _)) = pair(c, exp, "SAMEPOS", key, None, 1) else { continue };
+        let mut w0 = vec![0u8; 3 + i];
+        rng.fill_bytes(&mut w0);
+        c.call(&mut a, "enc", &w0, "combined");
+        c.call(&mut a, "dec", &w0, "combined");
+        if i % 2 == 1 { c.split(&mut a); }
+        let mut snap = c.clone_conn(&a);
+        let period = if *exp == "vanilla" { 40 } else if *exp == "tbc" { 20 } else { 256 };
+        let mut w = vec![0u8; period * (1 + i % 2)];
+        rng.fill_bytes(&mut w);
+        c.call(&mut a, "enc", &w, "half");
+        c.call(&mut a, "dec", &w, "half");
+        c.clone_from_conn(&mut snap, &a);
+        c.call(&mut snap, "dec", &w0, "half");
+        c.call(&mut snap, "enc", &w0, "half");
+        c.call(&mut a, "dec", &w0, "half");
+    }
+}
+
 /// C12: TLC-generated interleavings of {enc, dec, split, clone, unsplit} replayed sequentially,
 /// two-thread schedules replayed on real threads, unsplit with equal / different keys.
 pub fn run_halves(args: &Args) -> (u64, u64) {
@@ -1695,32 +1723,13 @@ pub fn run_halves(args: &Args) -> (u64, u64) {
         c.call(&mut b2, "dec", &w[..3], "combined");
         c.call(&mut b2, "enc", &w, "combined");
     }
-    // clone_from from an object that is exactly one (or two) key periods ahead: same key, same position, ANOTHER carried byte
-    c.reset("clone-from-same-position");
-    for (i, exp) in EXPS.iter().cycle().take(if args.tier == "thorough" { 18 } else { 6 }).enumerate() {
-        let Some((mut a, _)) = pair(&mut c, exp, "SAMEPOS", key, None, 1) else { continue };
-        let mut w0 = vec![0u8; 3 + i];
-        rng.fill_bytes(&mut w0);
-        c.call(&mut a, "enc", &w0, "combined");
-        c.call(&mut a, "dec", &w0, "combined");
-        if i % 2 == 1 { c.split(&mut a); }
-        let mut snap = c.clone_conn(&a);
-        let period = if *exp == "vanilla" { 40 } else if *exp == "tbc" { 20 } else { 256 };
-        let mut w = vec![0u8; period * (1 + i % 2)];
-        rng.fill_bytes(&mut w);
-        c.call(&mut a, "enc", &w, "half");
-        c.call(&mut a, "dec", &w, "half");
-        c.clone_from_conn(&mut snap, &a);
-        c.call(&mut snap, "dec", &w0, "half");
-        c.call(&mut snap, "enc", &w0, "half");
-        c.call(&mut a, "dec", &w0, "half");
-    }
+    clone_from_same_position(&mut c, &mut rng, &EXPS, key, if args.tier == "thorough" { 18 } else { 6 });
     // ONE half of a combined object replaced through its accessor (`*obj.encrypter() = other`, or the decrypter) by a half
     // with ANOTHER key: each direction then follows its own half; the typed helpers of the untouched direction included
     c.reset("half-replaced-through-accessor");
     for (i, exp) in EXPS.iter().cycle().take(if args.tier == "thorough" { 18 } else { 6 }).enumerate() {
         let mut k2 = key;
-        k2[(i * 5) % 40] ^= 0x42;
+        for x in k2.iter_mut() { *x ^= 0x42 + i as u8; }
         let Some((mut a, mut sva)) = pair(&mut c, exp, "REPLACED", key, None, 1) else { continue };
         let Some((mut o, mut svo)) = pair(&mut c, exp, "REPLACED", k2, None, 1) else { continue };
         let replace_enc = i % 2 == 0;
@@ -1764,7 +1773,7 @@ pub fn run_halves(args: &Args) -> (u64, u64) {
     // the same on the SERVER side objects of vanilla / tbc (one type serves both roles) with the client-header helper
     for (i, exp) in ["vanilla", "tbc"].iter().enumerate() {
         let mut k2 = key;
-        k2[7 + i] ^= 0x24;
+        for x in k2.iter_mut() { *x ^= 0x24 + i as u8; }
         let Some((mut cla, mut a)) = pair(&mut c, exp, "REPLACED", key, None, 1) else { continue };
         let Some((_clo, mut o)) = pair(&mut c, exp, "REPLACED", k2, None, 1) else { continue };
         let done = match (&mut a.st, &mut o.st) {
